@@ -186,7 +186,10 @@ def run(chk, driver, tier):
         chk.oracle_case(case, verdict)
         ops.append({"op": "dirty", "status": status, "files": ["bumpver.toml", "ver.txt"], "allow": allow})
     # the pattern file written in file_patterns as a valid but non-normalised path: it is still the file that carries the pattern
-    for (pat_name, key), state, allow in itertools.product([("ver.txt", "./ver.txt"), ("src/ver.txt", "src//ver.txt"), ("src/ver.txt", "./src/ver.txt"), ("src/ver.txt", "src/./ver.txt")],
+    for (pat_name, key), state, allow in itertools.product([("ver.txt", "./ver.txt"), ("src/ver.txt", "src//ver.txt"), ("src/ver.txt", "./src/ver.txt"), ("src/ver.txt", "src/./ver.txt"),
+                                                            # pattern files whose names START with a dot or a slash-like character set (`.version`, `.github/…`)
+                                                            (".version", ".version"), (".github/release.yml", ".github/release.yml"), ("..data/v.txt", "..data/v.txt"),
+                                                            (".version", "./.version")],
                                                            ["clean", "mod_unstaged", "mod_staged", "untracked", "added"], [False, True]):
         case, verdict, status = e2e("pattern", state, allow, pat_name, key=key)
         if case is None:
